@@ -2195,6 +2195,10 @@ class _Simu(_IObserver, _params.Updatable, ABC):
 
     def Bc_Init(self) -> None:
         """Initializes Dirichlet, Neumann and Lagrange boundary conditions"""
+        try:
+            hadLagrange = len(self.__Bc_Lagrange) > 0
+        except AttributeError:
+            hadLagrange = False
         # DIRICHLET
         self.__Bc_Dirichlet: list[BoundaryCondition] = []
         """Dirichlet conditions list[BoundaryCondition]"""
@@ -2206,6 +2210,9 @@ class _Simu(_IObserver, _params.Updatable, ABC):
         """Lagrange conditions list[BoundaryCondition]"""
         self.__Bc_Display: list[Union[BoundaryCondition, LagrangeCondition]] = []
         """Boundary conditions for display list[BoundaryCondition]"""
+        if hadLagrange:
+            # the Lagrange multipliers had resized the matrix system
+            self.Need_Update()
 
     @property
     def Bc_Dirichlet(self) -> list[BoundaryCondition]:
@@ -3039,6 +3046,10 @@ class _Simu(_IObserver, _params.Updatable, ABC):
         )
 
         self.__Bc_Dirichlet.append(new_Bc)
+
+        if len(self.__Bc_Lagrange) > 0:
+            # with Lagrange multipliers every constrained dof adds a row to the matrix system
+            self.Need_Update()
 
         tic.Tac("Boundary Conditions", "Add Dirichlet condition", self._verbosity)
 
